@@ -100,7 +100,7 @@ def run(module, cfg, workdir, workers=8, timeout=600, env=None, extra=(), heap=N
     _parse(text, res, keep_stdout)
     shutil.rmtree(meta, ignore_errors=True)
     # a run stopped by a long (thorough-tier) time limit is kept too: it explored what it reports, and says so (complete = False)
-    if key and not res.error and (res.complete or "-simulate" in extra or res.violated or (res.timed_out and timeout >= 1000 and res.distinct > 0)):
+    if key and not res.error and (res.complete or "-simulate" in extra or res.violated or (res.timed_out and timeout >= 500 and res.distinct > 0)):
         d = os.path.join(CACHE, key)
         os.makedirs(d, exist_ok=True)
         shutil.copyfile(outpath, os.path.join(d, "tlc.out"))
